@@ -14,7 +14,7 @@ import (
 
 // C20 — resizes and async prints never break an edit in progress.
 
-const c20Rule = "editing scripts (typed ASCII / wide text, cursor movements, kills, yank, undo, history recall; no width-dependent command) of 2-10 steps ended by accept-line, run twice in the same process: undisturbed, then with 1-4 disturbances placed at moments the harness owns: (park) while Readline waits for input, also between the two keys of a two-key sequence; (hold) while a command registered by the harness is executing and blocked; (query) while the main loop's own cursor-position query is unanswered, which is in the middle of a redisplay; disturbance = terminal resized to another width + SIGWINCH, SIGWINCH alone, burst of 2-12 resizes+signals, Shell.Printf or Shell.PrintTransientf from another goroutine, or a signal and a Printf together; rest is detected from the child's own goroutine dump (resize goroutine back in its select, Printf returned, Readline goroutine parked / held / in its query), never from delays; oracle: no panic, fatal error, deadlock or spin; the line returned equals the undisturbed run's; at every wait that follows typed keys the screen shows prompt+buffer+cursor for the CURRENT width (C04 layout); thorough: child built with the race detector, any report is a violation; non-trivial = a disturbance at hold or query, or a burst, or a width change while the buffer is wrapped; distinct = hash of the case"
+const c20Rule = "editing scripts (typed ASCII / wide text, cursor movements, kills, yank, undo, history recall; no width-dependent command) of 2-10 steps ended by accept-line, run twice in the same process: undisturbed, then with 1-4 disturbances placed at moments the harness owns: (park) while Readline waits for input, also between the two keys of a two-key sequence, and with the next typed text arriving in the same terminal write as the report the disturbance's redisplay asks for (type-ahead); (hold) while a command registered by the harness is executing and blocked; (query) while the main loop's own cursor-position query is unanswered, which is in the middle of a redisplay; disturbance = terminal resized to another width + SIGWINCH, SIGWINCH alone, burst of 2-12 resizes+signals, Shell.Printf or Shell.PrintTransientf from another goroutine, or a signal and a Printf together; rest is detected from the child's own goroutine dump (resize goroutine back in its select, Printf returned, Readline goroutine parked / held / in its query), never from delays; oracle: no panic, fatal error, deadlock or spin; the line returned equals the undisturbed run's; at every wait that follows typed keys the screen shows prompt+buffer+cursor for the CURRENT width (C04 layout); thorough: child built with the race detector, any report is a violation; non-trivial = a disturbance at hold or query, or a burst, or a width change while the buffer is wrapped; distinct = hash of the case"
 
 type C20Step struct {
 	Text K      `json:"text,omitempty"`
@@ -30,6 +30,11 @@ type C20Dist struct {
 	Text  string `json:"text,omitempty"`
 	Merge bool   `json:"merge,omitempty"`
 	Cut   int    `json:"cut,omitempty"` // split: keys of the sequence delivered before the disturbance
+	// park, one disturbing goroutine: the keys of the NEXT (typed text) step reach
+	// the terminal queue together with the report this disturbance's redisplay
+	// asks for, in one write, in front of it: type-ahead while the resize or the
+	// Printf is being handled
+	Glue bool `json:"glue,omitempty"`
 }
 
 type C20Case struct {
@@ -96,6 +101,8 @@ func genC20(t *rapid.T) *C20Case {
 		if c.Mode == "vi" && d.Cut == 1 {
 			d.Cut = 2 // a lone ESC is a key of its own in vi (timing, see C05)
 		}
+
+		d.Glue = d.Point == "park" && d.Kind != "both" && d.Kind != "burst" && rapid.IntRange(0, 2).Draw(t, "glue") == 0
 		c.Dists = append(c.Dists, d)
 	}
 
@@ -455,7 +462,35 @@ steps:
 		}
 
 		// (park) while waiting for input
-		if f := oneByOne(parkD[i], "parked"); f != nil {
+		typedAhead := false
+
+		if i < n && c.Steps[i].Cmd == "" && len(parkD[i]) > 0 && parkD[i][0].Glue && parkD[i][0].Kind != "both" && len(holdD[i]) == 0 && len(splitD[i]) == 0 && len(queryD[i]) == 0 {
+			// the next step's text arrives glued in front of the report that the
+			// first disturbance's redisplay asks for
+			keys := c.Steps[i].Text.dec()
+			child.SetGlue(keys, true)
+
+			lastParties = deliver(parkD[i][0])
+			history[len(history)-1] += fmt.Sprintf("+typeahead %q", keys)
+
+			if f := settle(rig.SettleWant{Main: "parked"}); f != nil {
+				child.CancelGlue()
+				return f, nontrivial
+			}
+
+			if child.GluePending() {
+				child.CancelGlue() // no report was asked for: the keys are typed below as usual
+			} else {
+				typedAhead = true
+				nontrivial = true
+
+				h.classN("typeahead-glued-to-async-report", 1)
+			}
+
+			if f := oneByOne(parkD[i][1:], "parked"); f != nil {
+				return f, nontrivial
+			}
+		} else if f := oneByOne(parkD[i], "parked"); f != nil {
 			return f, nontrivial
 		}
 
@@ -497,6 +532,10 @@ steps:
 
 		if i == n {
 			break
+		}
+
+		if typedAhead {
+			continue // the step's keys were delivered with the report
 		}
 
 		step := c.Steps[i]
